@@ -119,7 +119,7 @@ def run(ctx):
     for pkg, hf, binname, test, label in streams:
         raced = False
         if label == "c11cc":
-            binp = os.path.join(CACHE, "bin", "c11dm.test")   # same harness file: the plain binary has this test too
+            binp = os.path.join(ctx.bindir, "c11dm.test")   # same harness file: the plain binary has this test too
         else:
             binp = ctx.go_test_build(pkg, [hf], binname, tags="")
         if not binp:
@@ -127,7 +127,7 @@ def run(ctx):
         if label == "c11cc":
             # same overlay, built with the race detector (falls back to the plain binary if -race cannot link here)
             ov = os.path.join(ctx.out, "overlay_c11dm.json")
-            rbin = os.path.join(CACHE, "bin", binname + ".race.test")
+            rbin = os.path.join(ctx.bindir, binname + ".race.test")
             if os.path.exists(rbin):
                 os.unlink(rbin)
             cmd = ["go", "test", "-c", "-race", "-vet=off", "-overlay", ov, "-o", rbin, "./" + pkg]
